@@ -181,3 +181,57 @@ def spy_forecaster_class(kind="naive"):
     cls.predict = predict
     _fc_classes[kind] = cls
     return cls
+
+
+# ---------------------------------------------------------------------------------
+# recording series transformers: invertible affine maps z -> a*z + b
+# ---------------------------------------------------------------------------------
+_tr_classes = {}
+
+
+def spy_transformer_class(skip_inverse=False, with_update=True):
+    key = (skip_inverse, with_update)
+    if key in _tr_classes:
+        return _tr_classes[key]
+    from sktime.transformations.base import _SeriesToSeriesTransformer
+
+    class SpyAffine(_SeriesToSeriesTransformer):
+        _tags = {"transform-returns-same-time-index": True, "univariate-only": True}
+
+        def __init__(self, a=2.0, b=1000.0, log_id=None, name="t"):
+            self.a = a
+            self.b = b
+            self.log_id = log_id
+            self.name = name
+            super(SpyAffine, self).__init__()
+
+        def _rec(self, op, Z, **kw):
+            LOGS[self.log_id].append(dict({"op": op, "name": self.name, "obj": _uid(self), "values": np.asarray(Z, dtype=float).copy(),
+                                           "index": list(Z.index)}, **kw))
+
+        def fit(self, Z, X=None):
+            self._rec("fit", Z)
+            self._is_fitted = True
+            return self
+
+        def transform(self, Z, X=None):
+            self.check_is_fitted()
+            self._rec("transform", Z)
+            return Z * self.a + self.b
+
+        def inverse_transform(self, Z, X=None):
+            self.check_is_fitted()
+            self._rec("inverse_transform", Z)
+            return (Z - self.b) / self.a
+
+    if with_update:
+        def update(self, Z, X=None, update_params=True):
+            self.check_is_fitted()
+            self._rec("update", Z, update_params=update_params)
+            return self
+        SpyAffine.update = update
+    if skip_inverse:
+        SpyAffine._tags = dict(SpyAffine._tags, **{"skip-inverse-transform": True})
+    SpyAffine.__name__ = "SpyAffine%s%s" % ("Skip" if skip_inverse else "", "" if with_update else "NoUpdate")
+    _tr_classes[key] = SpyAffine
+    return SpyAffine
